@@ -588,39 +588,86 @@ theorem mem_sdSet {β : Type} (l : List (String × β)) (k : String) (v : β) (k
         · exact Or.inl (List.mem_cons_of_mem _ h)
         · exact Or.inr h
 
-/-- a command is the average power of ONE `Battery.load` call on the battery of a planned vehicle, asked for the
-planned power plus the surplus of the current step -/
-def CmdOK (ops : BatOps α B) (plans : List (PVeh α B × α)) (t0 : α) (kv : String × α) : Prop :=
-  ∃ q ∈ plans, q.1.v.cs = some kv.1 ∧ ∃ bat', ops.load q.1.v.bat none none (some (q.2 - min t0 0)) = .ok (bat', kv.2)
+/-- the power a vehicle is finally asked to take (repaired final loop): its plan, or — while surplus is left — the
+plan plus the surplus through `clamp_power`, never less than the plan -/
+def SchedOf (w : PWorld α B) (csId : String) (pv : PVeh α B) (planned surplus sched : α) : Prop :=
+  (¬ 0 < surplus ∧ sched = planned) ∨
+  (0 < surplus ∧ ∃ cs, w.station? csId = some cs ∧
+    sched = max (clampPower (planned + surplus) cs.currentPower cs.maxPower cs.minPower pv.v.minChargingPower) planned)
 
-theorem chargeVehicles_spec (ops : BatOps α B) (t0 : α) (all : List (PVeh α B × α)) :
-    ∀ (plans : List (PVeh α B × α)) (st st' : PWorld α B × GcS α × List (String × α)),
-      (∀ q ∈ plans, q ∈ all) → (∀ kv ∈ st.2.2, CmdOK ops all t0 kv) →
-      chargeVehicles ops t0 plans st = .ok st' → ∀ kv ∈ st'.2.2, CmdOK ops all t0 kv := by
+/-- one pass of the final loop -/
+theorem chargeVehicles_cons (ops : BatOps α B) (pv : PVeh α B) (planned : α) (rest : List (PVeh α B × α))
+    (surplus : α) (w : PWorld α B) (gc : GcS α) (cmds : List (String × α))
+    (st' : PWorld α B × GcS α × List (String × α))
+    (h : chargeVehicles ops ((pv, planned) :: rest) surplus (w, gc, cmds) = .ok st') :
+    ∃ csId sched, pv.v.cs = some csId ∧ SchedOf w csId pv planned surplus sched ∧
+      ((0 < sched ∧ ∃ bat' p, ops.load pv.v.bat none none (some sched) = .ok (bat', p) ∧
+          chargeVehicles ops rest (surplus - max (p - max planned 0) 0)
+            (w.setVehicle { pv with v := { pv.v with bat := bat' }, schedule := some sched },
+             (gc.addLoad csId p).1, sdSet cmds csId p) = .ok st') ∨
+       (¬ 0 < sched ∧
+          chargeVehicles ops rest surplus (w.setVehicle { pv with schedule := some sched }, gc, cmds) = .ok st')) := by
+  unfold chargeVehicles at h
+  simp only [pymax_eq] at h
+  split at h
+  · cases h
+  · rename_i csId hcs
+    obtain ⟨sched, hsched, h⟩ := bind_ok h
+    have hso : SchedOf w csId pv planned surplus sched := by
+      split at hsched
+      · rename_i hpos
+        split at hsched
+        · cases hsched
+        · rename_i cs hst
+          simp only [Except.ok.injEq] at hsched
+          exact Or.inr ⟨hpos, cs, hst, hsched.symm⟩
+      · rename_i hpos
+        simp only [Except.ok.injEq] at hsched
+        exact Or.inl ⟨hpos, hsched.symm⟩
+    refine ⟨csId, sched, hcs, hso, ?_⟩
+    split at h
+    · rename_i hp
+      obtain ⟨x, hx, h⟩ := bind_ok h
+      obtain ⟨bat', p⟩ := x
+      exact Or.inl ⟨hp, bat', p, hx, h⟩
+    · rename_i hp
+      exact Or.inr ⟨hp, h⟩
+
+/-- a command is the average power of ONE `Battery.load` call on the battery of a planned vehicle, asked for its
+planned power or (with surplus) for `max(clamp_power(…), planned)` at its station -/
+def CmdOK (ops : BatOps α B) (S : List (StationS α)) (plans : List (PVeh α B × α)) (kv : String × α) : Prop :=
+  ∃ q ∈ plans, q.1.v.cs = some kv.1 ∧ ∃ sched bat', ops.load q.1.v.bat none none (some sched) = .ok (bat', kv.2) ∧
+    (sched = q.2 ∨ ∃ cs x, S.find? (·.id == kv.1) = some cs ∧
+      sched = max (clampPower x cs.currentPower cs.maxPower cs.minPower q.1.v.minChargingPower) q.2)
+
+theorem chargeVehicles_spec (ops : BatOps α B) (S : List (StationS α)) (all : List (PVeh α B × α)) :
+    ∀ (plans : List (PVeh α B × α)) (surplus : α) (st st' : PWorld α B × GcS α × List (String × α)),
+      st.1.stations = S → (∀ q ∈ plans, q ∈ all) → (∀ kv ∈ st.2.2, CmdOK ops S all kv) →
+      chargeVehicles ops plans surplus st = .ok st' → ∀ kv ∈ st'.2.2, CmdOK ops S all kv := by
   intro plans
   induction plans with
   | nil =>
-    intro st st' _ hc h
+    intro surplus st st' _ _ hc h
     simp only [chargeVehicles, Except.ok.injEq] at h
     subst h; exact hc
   | cons q rest ih =>
-    intro st st' hall hc h
-    obtain ⟨pv, sched⟩ := q
+    intro surplus st st' hS hall hc h
+    obtain ⟨pv, planned⟩ := q
     obtain ⟨w, gc, cmds⟩ := st
-    unfold chargeVehicles at h
-    simp only [pymin_eq] at h
-    split at h
-    · split at h
-      · cases h
-      · rename_i csId hcs
-        obtain ⟨r, hr, h⟩ := bind_ok h
-        obtain ⟨bat', p⟩ := r
-        refine ih _ _ (fun q hq => hall q (List.mem_cons_of_mem _ hq)) ?_ h
-        intro kv hkv
-        rcases mem_sdSet _ _ _ _ hkv with hkv | rfl
-        · exact hc kv hkv
-        · exact ⟨(pv, sched), hall _ (by simp), hcs, bat', hr⟩
-    · exact ih _ _ (fun q hq => hall q (List.mem_cons_of_mem _ hq)) (by exact hc) h
+    obtain ⟨csId, sched, hcs, hso, hcase⟩ := chargeVehicles_cons ops pv planned rest surplus w gc cmds st' h
+    rcases hcase with ⟨_, bat', p, hload, hrec⟩ | ⟨_, hrec⟩
+    · refine ih _ _ _ (by simpa [PWorld.setVehicle] using hS) (fun q hq => hall q (List.mem_cons_of_mem _ hq)) ?_ hrec
+      intro kv hkv
+      rcases mem_sdSet _ _ _ _ hkv with hkv | rfl
+      · exact hc kv hkv
+      · refine ⟨(pv, planned), hall _ (by simp), hcs, sched, bat', hload, ?_⟩
+        rcases hso with ⟨_, e⟩ | ⟨_, cs, hst, e⟩
+        · exact Or.inl e
+        · refine Or.inr ⟨cs, planned + surplus, ?_, e⟩
+          simp only at hS
+          rw [← hS]; exact hst
+    · exact ih _ _ _ (by simpa [PWorld.setVehicle] using hS) (fun q hq => hall q (List.mem_cons_of_mem _ hq))
+        (by exact hc) hrec
 
 theorem mem_insertByKey {β : Type} (key : β → Int) (x y : β) (l : List β) :
     y ∈ insertByKey key x l → y = x ∨ y ∈ l := by
@@ -745,7 +792,7 @@ theorem stepGc_commands (ops : BatOps α B) (law : BatLaw ops) (env : PEnv α) (
     ∀ kv ∈ cmds, ∃ pv ∈ w.vehicles, ∃ cs, pv.v.cs = some kv.1 ∧ w.station? kv.1 = some cs ∧
       cs.parent = g.gc.id ∧ 0 ≤ kv.2 ∧
       (∃ sched bat', ops.load pv.v.bat none none (some sched) = .ok (bat', kv.2)) ∧
-      (0 ≤ sumLoads env g.gc.loads → kv.2 ≤ bound cs) := by
+      kv.2 ≤ bound cs := by
   unfold stepGc at h
   simp only at h
   obtain ⟨r1, hg, h⟩ := bind_ok h
@@ -767,10 +814,10 @@ theorem stepGc_commands (ops : BatOps α B) (law : BatLaw ops) (env : PEnv α) (
   have hgs := gatherVehicles_spec ops env w g.gc.id vehicles maxStanding hg
   obtain ⟨hhead, hplans⟩ := planVehicles_spec ops law env w (sumLoads env g.gc.loads) _ _ _ _ _ _
     (headGe_buildTimesteps env seasons level g.gc.id _ _ (g.gc.loads, g.gc.curMax)) hp
-  have hcm := chargeVehicles_spec ops ts0.power plans plans (w, g.gc, []) (w1, gc1, cmds1)
+  have hcm := chargeVehicles_spec ops w.stations plans plans _ (w, g.gc, []) (w1, gc1, cmds1) rfl
     (fun _ hq => hq) (by simp) hc
   intro kv hkv
-  obtain ⟨q, hq, hqcs, bat', hload⟩ := hcm kv hkv
+  obtain ⟨q, hq, hqcs, sched, bat', hload, hsched⟩ := hcm kv hkv
   obtain ⟨hqs, csId, cs, hcs, hst, hsb⟩ := hplans q hq
   obtain ⟨hqw, csId2, cs2, hcs2, hst2, hpar⟩ := hgs q.1 (mem_sortByKey _ _ _ hqs)
   have e1 : csId = kv.1 := by rw [hcs] at hqcs; exact Option.some.inj hqcs
@@ -782,11 +829,16 @@ theorem stepGc_commands (ops : BatOps α B) (law : BatLaw ops) (env : PEnv α) (
   subst e3
   have hl := law.load_target _ _ _ _ hload
   refine ⟨q.1, hqw, cs, hqcs, hst, hpar, hl.1, ⟨_, bat', hload⟩, ?_⟩
-  intro hs
-  have h0 : 0 ≤ ts0.power := le_trans hs (hhead ts0 (getAt_zero_head ht0))
-  have hm : min ts0.power 0 = 0 := min_eq_right h0
-  rw [hm, sub_zero] at hl
-  exact le_trans hl.2 (max_le hsb (bound_nonneg cs))
+  have hsle : sched ≤ bound cs := by
+    rcases hsched with e | ⟨cs', x, hst', e⟩
+    · rw [e]; exact hsb
+    · have : cs' = cs := by
+        unfold PWorld.station? at hst
+        rw [hst] at hst'; exact (Option.some.inj hst').symm
+      subst this
+      rw [e]
+      exact max_le (clampPower_le_bound _ _ _) hsb
+  exact le_trans hl.2 (max_le hsle (bound_nonneg cs))
 
 /-! ### the outside-window plan does not touch window steps -/
 
@@ -1028,46 +1080,45 @@ theorem planVehicle_follows_windows (ops : BatOps α B) (env : PEnv α) (cs : St
     · rw [ht] at ht'; cases ht'; exact hw
 
 /-- vehicles whose planned power is not positive get no command when the current step has no surplus -/
-theorem chargeVehicles_no_cmd (ops : BatOps α B) (t0 : α) (ht0 : 0 ≤ t0) :
+theorem chargeVehicles_no_cmd (ops : BatOps α B) (surplus : α) (hs : ¬ 0 < surplus) :
     ∀ (plans : List (PVeh α B × α)) (st st' : PWorld α B × GcS α × List (String × α)),
-      (∀ q ∈ plans, q.2 ≤ 0) → chargeVehicles ops t0 plans st = .ok st' →
+      (∀ q ∈ plans, q.2 ≤ 0) → chargeVehicles ops plans surplus st = .ok st' →
       st'.2.1 = st.2.1 ∧ st'.2.2 = st.2.2 := by
   intro plans
   induction plans with
   | nil => intro st st' _ h; simp only [chargeVehicles, Except.ok.injEq] at h; subst h; exact ⟨rfl, rfl⟩
   | cons q rest ih =>
     intro st st' hq h
-    obtain ⟨pv, sched⟩ := q
+    obtain ⟨pv, planned⟩ := q
     obtain ⟨w, gc, cmds⟩ := st
-    unfold chargeVehicles at h
-    simp only [pymin_eq, min_eq_right ht0, sub_zero] at h
-    have hs : ¬ 0 < sched := not_lt.mpr (hq (pv, sched) (by simp))
-    simp only [hs, if_false] at h
-    have := ih _ _ (fun q' hq' => hq q' (List.mem_cons_of_mem _ hq')) h
-    exact this
+    obtain ⟨csId, sched, hcs, hso, hcase⟩ := chargeVehicles_cons ops pv planned rest surplus w gc cmds st' h
+    have hsp : sched = planned := by
+      rcases hso with ⟨_, e⟩ | ⟨hp, _⟩
+      · exact e
+      · exact absurd hp hs
+    have hle : ¬ 0 < sched := by rw [hsp]; exact not_lt.mpr (hq (pv, planned) (by simp))
+    rcases hcase with ⟨hp, _⟩ | ⟨_, hrec⟩
+    · exact absurd hp hle
+    · have := ih _ _ (fun q' hq' => hq q' (List.mem_cons_of_mem _ hq')) hrec
+      exact this
 
 /-! ### `step`: the fold over the connectors -/
 
-theorem chargeVehicles_stations (ops : BatOps α B) (t0 : α) :
-    ∀ (plans : List (PVeh α B × α)) (st st' : PWorld α B × GcS α × List (String × α)),
-      chargeVehicles ops t0 plans st = .ok st' → st'.1.stations = st.1.stations := by
+theorem chargeVehicles_stations (ops : BatOps α B) :
+    ∀ (plans : List (PVeh α B × α)) (surplus : α) (st st' : PWorld α B × GcS α × List (String × α)),
+      chargeVehicles ops plans surplus st = .ok st' → st'.1.stations = st.1.stations := by
   intro plans
   induction plans with
-  | nil => intro st st' h; simp only [chargeVehicles, Except.ok.injEq] at h; subst h; rfl
+  | nil => intro surplus st st' h; simp only [chargeVehicles, Except.ok.injEq] at h; subst h; rfl
   | cons q rest ih =>
-    intro st st' h
-    obtain ⟨pv, sched⟩ := q
+    intro surplus st st' h
+    obtain ⟨pv, planned⟩ := q
     obtain ⟨w, gc, cmds⟩ := st
-    unfold chargeVehicles at h
-    simp only at h
-    split at h
-    · split at h
-      · cases h
-      · obtain ⟨x, hx, hb⟩ := bind_ok h
-        obtain ⟨bat', p⟩ := x
-        have := ih _ _ hb
-        exact this
-    · have := ih _ _ h
+    obtain ⟨csId, sched, hcs, hso, hcase⟩ := chargeVehicles_cons ops pv planned rest surplus w gc cmds st' h
+    rcases hcase with ⟨_, bat', p, _, hrec⟩ | ⟨_, hrec⟩
+    · have := ih _ _ _ hrec
+      exact this
+    · have := ih _ _ _ hrec
       exact this
 
 theorem foldl_setBattery_stations (done : List (StatBatS α B)) :
